@@ -38,6 +38,14 @@ SPEC = {
         'relaxed': r' {0,3}(?:`{3,}[^`\n]*|~{3,}[^\n]*)\n',
         'ref': 'section 4.5: at least three ` or ~, indent 0-3; a backtick fence info string may not contain backticks',
     },
+    'blank': {
+        # not from the specification but from the parser itself: every block reader tests
+        # `line.strip() == ''`, so the Markdown renderer's BlankLine token must start on exactly the
+        # lines made of Python whitespace (C09: blank lines are kept as tokens)
+        'strict': r'\s*\n',
+        'relaxed': r'\s*\n',
+        'ref': "the block readers' blank-line test line.strip() == '' (Python whitespace only, then the terminator)",
+    },
 }
 
 # (obligation suffix, module, pattern key, spec id, dialect, direction, props, side)
@@ -48,6 +56,7 @@ LEMMA_TABLE = [
     ('List.pattern', 'mistletoe.block_token', 'marker', ['C14', 'C02', 'C03', 'C12']),
     ('Paragraph.setext_pattern', 'mistletoe.block_token', 'setext', ['C14', 'C02', 'C03']),
     ('CodeFence.pattern', 'mistletoe.block_token', 'fence', ['C14', 'C02', 'C03']),
+    ('BlankLine.pattern', 'mistletoe.markdown_renderer', 'blank', ['C09']),
 ]
 
 
